@@ -96,7 +96,7 @@ NETS = {
 }
 
 VALS = [
-    NONE, I(0), I(1), I(2), I(3), I(5), I(9), S("a"), S("x"), T(I(1), I(2)),
+    NONE, I(0), I(1), I(2), I(3), I(5), I(9), ["fi", 0], ["fi", 4], S("a"), S("x"), T(I(1), I(2)),
     L(I(1), I(2)), L(I(4), I(5), I(6)), L(), L(I(1), NONE), L(I(1), L(I(2))), IT(I(1), I(4)), ["fs", [I(1), I(3)]],
     L(L(I(1), I(2)), L(I(2), I(4), I(5))),
     L(T(L(I(1), I(4)), S("q")), T(L(I(2)), I(0))),
